@@ -296,6 +296,50 @@ def _empty_test(test, tt):
     return False
 
 
+def _tuple_result_len(fi, sub):
+    """`r = self._helper(...)` ... `if r is not None: r[k]` where every return of the helper (a method of the same class
+    or a function of the same module) is a tuple display or None: the guaranteed tuple length under the None guard"""
+    if not isinstance(sub.value, ast.Name):
+        return 0
+    nm = sub.value.id
+    defs = [s_ for s_ in walk_shallow(fi.node) if isinstance(s_, ast.Assign) and any(isinstance(t, ast.Name) and t.id == nm for t in s_.targets)]
+    if len(defs) != 1 or not isinstance(defs[0].value, ast.Call):
+        return 0
+    f = defs[0].value.func
+    target = None
+    if isinstance(f, ast.Attribute) and isinstance(f.value, ast.Name) and f.value.id == "self" and fi.cls is not None:
+        target = fi.cls.find_method(f.attr)
+    elif isinstance(f, ast.Name):
+        target = fi.module.functions.get(f.id)
+    if target is None:
+        return 0
+    rets = [r_ for r_ in walk_shallow(target.node) if isinstance(r_, ast.Return)]
+    if not rets:
+        return 0
+    n = None
+    may_none = False
+    for r_ in rets:
+        if r_.value is None or (isinstance(r_.value, ast.Constant) and r_.value.value is None):
+            may_none = True
+        elif isinstance(r_.value, ast.Tuple):
+            n = len(r_.value.elts) if n is None else min(n, len(r_.value.elts))
+        else:
+            return 0
+    if n is None:
+        return 0
+    if may_none:
+        guarded = False
+        cur = getattr(sub, "_parent", None)
+        child = sub
+        while cur is not None and cur is not fi.node:
+            if isinstance(cur, ast.If) and child in cur.body and ast.unparse(cur.test) in ("%s is not None" % nm, nm):
+                guarded = True
+            child, cur = cur, getattr(cur, "_parent", None)
+        if not guarded:
+            return 0
+    return n
+
+
 def _needed_len(idx):
     return idx + 1 if idx >= 0 else -idx
 
@@ -324,6 +368,8 @@ def scan_partial_ops(fi, nodes_iter, tainted, skip_protected_from=None, dict_var
                 tt = ast.unparse(sub.value)
                 have = _nonempty_guard(sub, tt)
                 if have >= _needed_len(cidx):
+                    continue
+                if _tuple_result_len(fi, sub) >= _needed_len(cidx):
                     continue
                 yield sub, ("constant index %s[%d] on line-derived data without a length guard (IndexError on a "
                             "short/empty field)" % (tt, cidx))
@@ -576,6 +622,8 @@ def rule_steer_lookup(ctx):
             ctx.check(guarded, "HDR.STEER-LOOKUP", site, fi, sub,
                       "lookup of %s is guarded by `%r in %s`" % (mn, mn, cont),
                       "lookup %s is not guarded by a membership test: a header section without %s raises" % (unparse(sub), mn))
+    if n == 0:
+        ctx.undecided("HDR.STEER-LOOKUP", "las.LASFile.read#lookup", fi, fi.node, "no `x = <items>.<MNEM>.value` lookup found")
     ctx.floor("HDR.STEER-LOOKUP", 4)
 
 
